@@ -418,7 +418,7 @@ class LoaderGroup(Generic[_K, _L]):
         all_results = da.compute(all_tasks)[0]
         out = DataFrameDict()
         for key, result in zip(keys, all_results):
-            out[key] = pl.DataFrame(np.array(result), schema=schema)
+            out[key] = pl.DataFrame([np.array(r) for r in result], schema=schema)
         return out
 
     def fsc(
